@@ -13,9 +13,13 @@ EXPLANATION = (
     "and the loop is left only at end of input or on an error; (C05.3) every input is removed from the manifest, opened, "
     "merged and summed, every output is added to the manifest, linked, recorded and summed, and the builder is sealed "
     "before the finish; the merged cursor is built over exactly the opened inputs; (C05.4) what GC drops is what it adds "
-    "to discard (C04.5).  who-may-call/GUARDED/loop-body MUSTPASS/ORIGIN over resolved MIR.")
-NOT_DECIDED = ("multiset equality of contents before/after, the semantics of versions=N / ttl / any / all over per-key version "
-               "patterns, output splitting: value computations")
+    "to discard (C04.5); (C05.5) the collector's per-key scratch state (the tombstone list handed to the determiner) is reset "
+    "whenever the key changes; (C05.6) the policy combinators any/all consult every child on every entry, fold with | / & "
+    "from false / true and never return from inside the loop (children are stateful version counters); the version counter "
+    "restarts per key, retains the first untombstoned version of a key unconditionally and otherwise tests count <= number.  "
+    "who-may-call/GUARDED/loop-body MUSTPASS/ORIGIN over resolved MIR.")
+NOT_DECIDED = ("multiset equality of contents before/after, the full semantics of versions=N / ttl / any / all over every per-key "
+               "version pattern (C05.5/C05.6 are necessary conditions of it), output splitting: value computations")
 ASSUMPTIONS = ["MergingCursor enumerates the union of its children (C11)"]
 
 TREE = "lsmtk::tree::LsmTree::"
@@ -28,6 +32,7 @@ def rules(ctx):
     c053(ctx)
     C04.c045(ctx)
     c055(ctx)
+    c056(ctx)
 
 
 def c055(ctx):
@@ -196,3 +201,64 @@ def c053(ctx):
     g = ctx.fn(R, "lsmtk::tree::Version::apply_compaction_inner")
     if f and g:
         ctx.must_pass(R, f, "apply_compaction_inner", ctx.calls(R, f, r"Version::apply_compaction_inner$"))
+
+
+# ------------------------------------------------------------------------------------------------
+# C05.6 the policy determiners
+
+def c056(ctx):
+    R = "C05.6"
+    ctx.declare(R, "policy combinators consult every child for every entry (children count versions: no short-circuit), and the "
+                   "version counter retains the entry that decides a key's current value")
+    for name, init, op in (("AnyDeterminer", 0, "BitOr"), ("AllDeterminer", 1, "BitAnd")):
+        f = ctx.fn(R, "<sst::gc::%s as sst::gc::Determiner>::retain" % name)
+        if not f:
+            continue
+        heads = [h for h in P.call_points(f, r"Iterator>::next$") if P.reach(f, P.after(f, h), [h])]
+        calls = [p_ for p_ in P.call_points(f, r"sst::gc::Determiner::retain$|Determiner>::retain$")]
+        ctx.floor(R, name + " child loop", len(heads), 1)
+        for h in heads:
+            q = P.reach(f, P.after(f, h), [h], avoid=set(calls))
+            ctx.check(R, f, "every-child-consulted", bool(calls) and q is None, "%s::retain calls every child's retain on every entry" % name,
+                      "%s::retain can go round its loop without consulting a child" % name, pt=h, path=q)
+            # no exit from inside the loop other than exhaustion of the iterator: the loop is left only on the None edge of next()
+            body_rets = [r_ for r_ in P.return_points(f) if any(P.reach(f, P.after(f, c_), [r_], avoid=set(heads)) is not None for c_ in calls)]
+            ctx.check(R, f, "no-short-circuit", not body_rets, "%s::retain returns only after the last child (stateful children see every entry)" % name,
+                      "%s::retain returns from inside the loop: later children (a version counter) miss this entry and miscount the key" % name,
+                      pt=body_rets[0] if body_rets else None)
+        # accumulator: initialised to the neutral element, combined with | / &, returned
+        ret_srcs = P.origins(f, {"k": "copy", "pl": {"l": 0, "p": []}})
+        acc_ops = {s_["op"] for s_ in ret_srcs if s_["k"] == "bin"}
+        inits = {s_.get("v") for s_ in ret_srcs if s_["k"] == "const"}
+        ctx.check(R, f, "accumulator", acc_ops == {op} and inits == {init},
+                  "%s::retain folds the children's answers with %s starting from %s" % (name, op, bool(init)),
+                  "%s::retain folds with %s from %s (expected %s from %s)" % (name, sorted(acc_ops), sorted(inits, key=str), op, init))
+        for c_ in calls:
+            t = P.term_at(f, c_)
+            same = all(any(s_["k"] == "param" and s_["i"] == i + 1 for s_ in P.origins(f, t["args"][i])) for i in (1, 2, 3))
+            ctx.check(R, f, "same-entry", same, "children are asked about the same (key, tombstones, exists)", "children are asked about something other than the entry", pt=c_)
+    f = ctx.fn(R, "<sst::gc::VersionsDeterminer as sst::gc::Determiner>::retain")
+    if f:
+        cw = P.field_writes(f, r"gc::VersionsDeterminer$", "count")
+        consts, incs = [], []
+        for w in cw:
+            st = f.blocks[w[0]].st[w[1]]
+            rv = st["rv"]
+            srcs = P.origins(f, rv["a"]) if rv["r"] == "use" else [{"k": "bin"}] if rv["r"] == "bin" else []
+            if rv["r"] == "use" and rv["a"].get("k") == "const":
+                consts.append((w, rv["a"]["c"].get("v")))
+            elif any(s_["k"] == "bin" for s_ in srcs) or rv["r"] == "bin":
+                incs.append(w)
+        # the key-changed edge: comparison of self.key with the key parameter
+        kc = [b for b in P.switch_blocks(f) if any(s_["k"] == "call" and re.search(r"::(ne|eq)$", s_["callee"]) for s_ in K.cond_sources(f, b.idx))]
+        ctx.floor(R, "VersionsDeterminer key-change test", len(kc), 1)
+        ctx.check(R, f, "count-restarts", sorted(v for _w, v in consts) == [1, 2] and len(incs) >= 2,
+                  "on a new key the count restarts at 1 (value) or 2 (tombstoned); on the same key it is incremented",
+                  "VersionsDeterminer no longer restarts its count per key (constant stores %s, increments %d)" % (sorted(v for _w, v in consts), len(incs)))
+        # the deciding entry: new key without tombstones -> retained unconditionally
+        tt = [t_ for t_ in (P.switch_table(f) or []) if t_[1] == ("const", 1)]
+        ctx.check(R, f, "newest-live-retained", bool(tt), "the first version of a key with no tombstone above it is retained unconditionally (a constant true path)",
+                  "no path of VersionsDeterminer::retain returns true unconditionally: the entry that decides a key's current value can be dropped")
+        # every other path compares count with the configured number
+        cmp_ok = any(s_["k"] == "bin" and s_["op"] == "Le" for s_ in P.origins(f, {"k": "copy", "pl": {"l": 0, "p": []}}))
+        ctx.check(R, f, "count-vs-number", cmp_ok, "otherwise retained iff count <= number", "the retention test is no longer count <= number")
